@@ -1,8 +1,16 @@
 #!/bin/bash
-# Offline setup after a fresh restore: warm the Go build cache for all checks.
+# Offline setup after a fresh restore: warm the Go build cache for every check (and the race runtime).
 set -u
 export GOFLAGS=-mod=mod GOPROXY=off GOSUMDB=off GOTOOLCHAIN=local CGO_ENABLED=0
 cd "$(dirname "$0")/vmod" || exit 1
 [ -f go.sum ] || cp /repo/go.sum go.sum
-go build ./... || exit 1
-echo setup ok
+mkdir -p ../.work/bin
+rc=0
+for d in cmd/one/*; do
+  go build -o ../.work/bin/setup.tmp "./$d" || { echo "WARN: $d does not build"; rc=1; }
+done
+rm -f ../.work/bin/setup.tmp
+# the C09 check builds its harness with the race detector: warm that cache too
+CGO_ENABLED=1 go build -race -o ../.work/bin/setup.tmp ./cmd/sched19 2>/dev/null; rm -f ../.work/bin/setup.tmp
+echo "setup done rc=$rc"
+exit 0
